@@ -674,6 +674,9 @@ func genKD(d int, stock bool) func(g *vlib.G) {
 		N := kdMaxPoints(g, d)
 		L := ipow(sp.side, d)
 		stockReps := vlib.Pick(g, 2, 3)
+		if d == 4 {
+			stockReps = vlib.Pick(g, 1, 2)
+		}
 		group := fmt.Sprintf("kd-%s-d%d", map[bool]string{false: "shapes", true: "stock"}[stock], d)
 		for j := 0; j <= N; j++ {
 			multisets(L, j, func(bulkv []int) {
@@ -691,22 +694,27 @@ func genKD(d int, stock bool) func(g *vlib.G) {
 							if stock && len(bulk) >= 2 {
 								reps, esc = attempts(group, key, stockReps)
 							}
+							random := stock && len(bulk) >= 2
 							// A confirmation re-run of a case whose only failure was the
 							// known DoBounded defect re-checks structure and DoBounded only.
 							lite := knownOnly[group+"\x00"+key] && !replaying()
 							for rep := 0; rep < reps && !t.Failed() && !(esc && st.bs.knownSkips > 0); rep++ {
 								for _, bnd := range []bool{false, true} {
-									// Searches never read Bounding: beyond d=2 the sweep runs on one
+									// Searches never read Bounding: beyond d=1 the sweep runs on one
 									// of the two (structurally checked) trees only; for random builds
 									// the swept tree alternates with the repetition.
 									mode := kdFull
-									if d > 2 {
+									if d > 1 {
 										swept := !bnd
-										if stock && reps > 1 {
+										if random {
 											swept = bnd == (rep%2 == 1)
-										} else if stock {
+										} else if stock && d > 2 {
 											// fewer than two bulk points: the build is deterministic and
 											// the tree is the one swept by the kd-shapes group.
+											swept = false
+										} else if !stock && d > 2 && len(bulk) == 1 {
+											// a one-point bulk build followed by Inserts gives the tree of
+											// the history that Inserts all points (swept there).
 											swept = false
 										}
 										if !swept {
